@@ -43,6 +43,8 @@ REPLAY_SRC = r'''
 // integer grid (all degenerate cases included).  Oracles are written from the definitions, in 64-bit integers.
 #include "libavoid/geometry.h"
 #include "libavoid/geomtypes.h"
+#include <iostream>
+#include "libvpsc/linesegment.h"
 #include <cstdio>
 using namespace Avoid;
 typedef long long ll;
@@ -93,6 +95,20 @@ int main() {
     Polygon r(4); r.ps[0] = Point(x0, y0); r.ps[2] = Point(x1, y1); r.ps[1] = flip ? Point(x0, y1) : Point(x1, y0); r.ps[3] = flip ? Point(x1, y0) : Point(x0, y1);
     for (size_t m = 0; m < N; ++m) { const Point &q = pts[m]; bool in = x0 <= q.x && q.x <= x1 && y0 <= q.y && q.y <= y1;
       if (inPolyGen(r, q) != in) FAIL("inPolyGen(rectangle [%d,%d]x[%d,%d]%s; q=(%g,%g)) = %d, exact %d", x0, x1, y0, y1, flip ? " reversed" : "", q.x, q.y, (int)inPolyGen(r, q), (int)in); }
+  }
+  { // libvpsc's LineSegment::Intersect on the grid [0,3], zero-length segments included
+    int lsbad = 0;
+    for (int c = 0; c < 65536; ++c) {
+      int v[8]; for (int k = 0; k < 8; ++k) v[k] = (c >> (2 * k)) & 3;
+      linesegment::LineSegment a(linesegment::Vector(v[0], v[1]), linesegment::Vector(v[2], v[3])), b(linesegment::Vector(v[4], v[5]), linesegment::Vector(v[6], v[7]));
+      linesegment::Vector p; int r = (int)a.Intersect(b, p);
+      long dx1 = v[2] - v[0], dy1 = v[3] - v[1], dx2 = v[6] - v[4], dy2 = v[7] - v[5];
+      long denom = dy2 * dx1 - dy1 * dx2, na = dx2 * (v[1] - v[5]) - dy2 * (v[0] - v[4]), nb = dx1 * (v[1] - v[5]) - dy1 * (v[0] - v[4]);
+      bool ia = denom > 0 ? (0 <= na && na <= denom) : (0 >= na && na >= denom), ib = denom > 0 ? (0 <= nb && nb <= denom) : (0 >= nb && nb >= denom);
+      int want = denom == 0 ? ((na == 0 && nb == 0) ? 1 : 0) : ((ia && ib) ? 3 : 2);
+      if (r != want) { if (lsbad < 3) printf("LineSegment (%d,%d)-(%d,%d) Intersect (%d,%d)-(%d,%d) = %d, exact arithmetic says %d\n", v[0], v[1], v[2], v[3], v[4], v[5], v[6], v[7], r, want); lsbad++; }
+    }
+    bad += lsbad;
   }
   if (bad) { printf("REPRODUCED: %d disagreement(s) with exact arithmetic\n", bad); return 1; }
   printf("not reproduced on the grid [0,%d]\n", G); return 0;
@@ -246,6 +262,21 @@ def jobs(tier):
                       expect=[r'h_inPolyGen\.assertion']))
     for j in js:
         j.replay = replay_c16
+    # ---------------- libvpsc/linesegment.h LineSegment::Intersect: classification (parallel / coincident / not intersecting / intersecting) against exact
+    #                  integer arithmetic on a small grid, zero-length segments included; case split on the first coordinate
+    LSH = "libvpsc/linesegment.h"
+    lsv = slice_block(LSH, r'^class Vector\n\{', "linesegment::Vector")
+    lsl = slice_block(LSH, r'^class LineSegment\n\{', "linesegment::LineSegment (with Intersect)")
+    ls_cxx = ("#include <verif_base.h>\nnamespace linesegment {\n" + lsv.text + ";\n" + lsl.text + ";\n}\n"
+              'extern "C" int w_ls_intersect(double x1, double y1, double x2, double y2, double x3, double y3, double x4, double y4) {\n'
+              "  linesegment::LineSegment a(linesegment::Vector(x1, y1), linesegment::Vector(x2, y2)), b(linesegment::Vector(x3, y3), linesegment::Vector(x4, y4));\n"
+              "  linesegment::Vector p; return (int)a.Intersect(b, p); }\n")
+    lgrid = 2 if tier == "quick" else 3
+    for x1 in range(lgrid + 1):
+        js.append(Job("linesegment_Intersect_grid_x%d" % x1, "D", spec, "h_ls_intersect", cxx=ls_cxx, defines=["JOB_ls_intersect", "LS_X1=%d" % x1, "LS_GRID=%d" % lgrid],
+                      slices=[lsv, lsl], flags=["--sat-solver", "cadical"], backend="sat:cadical", timeout=900, replay=replay_c16,
+                      domain="bit-precise IEEE; integer coordinates in [0,%d] with the first x-coordinate fixed to %d; zero-length segments included" % (lgrid, x1),
+                      expect=[r'h_ls_intersect\.assertion']))
     return js
 
 
